@@ -103,3 +103,16 @@ Proof. intros Hk. unfold py_slice. cbn [optZ bind]. unfold VS. rewrite (slice_su
   rewrite enc_length. unfold enc. now rewrite skipn_map. Qed.
 Lemma add_VS_VS a b : py_add (VS a) (VS b) = Normal (VS (a ++ b)). Proof. unfold VS, enc. now rewrite map_app. Qed.
 
+
+(* Normalisation of a generated body: inline non-recursive generated helpers (whatever they are called), evaluate the monad
+   plumbing, and rewrite with the library facts above wherever they apply.  The refinement scripts are written with this tactic
+   so that they do not depend on the ORDER of statements or on how the source splits its work into helper methods. *)
+Ltac py_rw :=
+  first
+  [ rewrite get_cache | rewrite get_salt | rewrite get_salter | rewrite get_fmt | rewrite get_B | rewrite set_cache
+  | rewrite get_inv | rewrite set_inv | rewrite dict_get_enc | rewrite dict_inv_enc
+  | rewrite slice_VS | rewrite getitem_m1 | rewrite int_encb | rewrite xor_b2z | rewrite str_b2z | rewrite add_VS | rewrite add_VS_VS
+  | rewrite pyslice_prefix by lia | rewrite pyslice_suffix by lia ].
+Ltac py_cbn := progress cbn [bind bindS unpack2 call py_neg py_eq veq truthy py_setitem py_get is_none negb option_map].
+Ltac py_norm_with tac := repeat first [ py_cbn | py_rw | tac | progress autounfold with gen_db ].
+Ltac py_norm := py_norm_with fail.
